@@ -25,6 +25,9 @@ type PartOpt struct {
 	// Guard: before each case the worker records it in <GuardDir>/current-<w>.json so that the
 	// supervising parent process can attribute an os.Exit / fatal runtime error of the real code.
 	Guard bool
+	// Unstable: the property itself is about run-to-run differences (determinism), so an observed
+	// failure is reported without demanding that it reproduces identically.
+	Unstable bool
 }
 
 // GuardDir is set by the supervisor (main) for the child process; empty = no guarding.
@@ -199,7 +202,7 @@ func Product[C any, E any](r *Report, name string, opt PartOpt, gen func(yield f
 	for _, s := range sigs {
 		fc := fails[s]
 		stable := true
-		for i := 0; i < 5; i++ {
+		for i := 0; i < 5 && !opt.Unstable; i++ {
 			l := &Local{outcomes: map[uint64]struct{}{}}
 			f2 := safely(check, l, newEnv(), fc.c)
 			if f2 == nil || f2.Sig != fc.f.Sig || f2.Msg != fc.f.Msg {
